@@ -236,7 +236,18 @@ func (c *Ctx) startupReconciliation(specs ...reconSpec) {
 			}
 			return true
 		})
-		c.verdict(len(bad) == 0 && len(okRets) >= 2, construct, c.P.Pos(fn.Pos()), "every successful return of a non-empty open is preceded by chainTip()", "successful return at "+join(bad)+" reachable on a non-empty open without reading the index tip", c.ats(okRets)...)
+		// (not vacuous: behind the tip read a successful return can be reached;
+		// the empty and the non-empty open may share one return statement)
+		behindTip := false
+		for _, t := range find(fn, isTip) {
+			ir.WalkAfter(t, nil, func(in ssa.Instruction) bool {
+				if r, ok := in.(*ssa.Return); ok && ir.IsNil(ir.RetVal(r, 1)) {
+					behindTip = true
+				}
+				return !behindTip
+			})
+		}
+		c.verdict(len(bad) == 0 && len(okRets) >= 1 && behindTip, construct, c.P.Pos(fn.Pos()), "every successful return of a non-empty open is preceded by chainTip()", "successful return at "+join(bad)+" reachable on a non-empty open without reading the index tip", c.ats(okRets)...)
 		// the record the tip is compared with is the LAST one of the file:
 		// read at a height computed from the file's size, not at the
 		// index tip's height (that record matches whenever the file is
